@@ -578,6 +578,10 @@ static void parse_hostname(struct iauth_request *req, char hostname[])
         iauth_send_opers("ircd sent garbage: -1 N ...");
         return;
     }
+    if (!hostname) {
+        iauth_send_opers("ircd sent garbage: <id> N without hostname");
+        return;
+    }
     if (req->hostname[0] != '\0')
         return;
     strncpy(req->hostname, hostname, HOSTLEN);
@@ -615,6 +619,10 @@ static void parse_password(struct iauth_request *req, char password[])
 
     if (!req) {
         iauth_send_opers("ircd sent garbage: -1 P ...");
+        return;
+    }
+    if (!password) {
+        iauth_send_opers("ircd sent garbage: <id> P without password");
         return;
     }
     BITSET_SET(req->flags, IAUTH_GOT_PASSWORD);
@@ -684,6 +692,10 @@ static void parse_nick(struct iauth_request *req, char nick[])
 
     if (!req) {
         iauth_send_opers("ircd sent garbage: -1 n ...");
+        return;
+    }
+    if (!nick) {
+        iauth_send_opers("ircd sent garbage: <id> n without nickname");
         return;
     }
     strncpy(req->nickname, nick, NICKLEN);
@@ -860,6 +872,12 @@ static void iauth_read(evutil_socket_t fd, short events, void *iauth_in_v)
         }
         if (argc < ARRAY_LENGTH(argv))
             argv[argc] = NULL;
+
+        /* A line without a command (just an id, or blank) is noise. */
+        if (argc == 0) {
+            free(line);
+            continue;
+        }
 
         /* If we should know the id, but don't, bail. */
         if (id == -1 || argv[0][0] == 'C')
